@@ -399,5 +399,6 @@ func TestVerifC01(t *testing.T) {
 			)
 		}
 	}
+	scs = append(scs, vs.E1(t, "a/sse-client-last-words", b(2, 3), vs.Options{}, func() vs.Verdict { return c01SSELastWords() }))
 	env.Run(scs)
 }
